@@ -390,6 +390,12 @@ class Body:
                         if l in names and sub.startswith("_") and not sub.startswith("_1.^"):
                             return names[l]
                         return sub
+                    if l in names and not self._prov:
+                        return names[l]
+                    if o["c"] == "const" and "int" in o:
+                        return "const:%d" % o["int"]
+                    if o["c"] == "const" and "item" in o:
+                        return "const:" + o["item"]
                     if l in names:
                         return names[l]
                     return "const"
@@ -398,6 +404,13 @@ class Body:
                     if l in names and sub.startswith("_") and not sub.startswith("_1.^"):
                         return names[l]
                     return sub
+                if self._prov and k == "binop":
+                    op = rv["op"].replace("WithOverflow", "").replace("Unchecked", "")
+                    return "%s(%s,%s)" % (op, self._opath_d(rv["a"], depth + 1, seen), self._opath_d(rv["b"], depth + 1, seen))
+                if self._prov and k == "unop":
+                    return "%s(%s)" % (rv["op"], self._opath_d(rv["o"], depth + 1, seen))
+                if self._prov and k == "agg" and rv.get("ak") == "adt":
+                    return "%s{%s}" % (rv["adt"].rsplit("::", 1)[-1], ",".join(self._opath_d(o, depth + 1, seen) for o in rv["ops"]))
             elif d[0] == "call" and (l not in names or self._prov):
                 c = Call(self, d[1], d[3])
                 if c.declared in IDENTITY_CALLS and c.args:
@@ -414,12 +427,25 @@ class Body:
         for e in p["pr"]:
             k = e[0]
             if k == "field":
+                if self._prov and e[2] == "0" and re.match(r"^(Add|Sub|Mul|Shl|Shr)\(", base):
+                    continue
                 base = "%s.%s" % (base, e[2])
             elif k == "downcast":
                 base = "%s@%s" % (base, e[1])
             elif k in ("index", "cindex", "subslice"):
                 base = base + "[]"
         return normalize_path(base)
+
+    def _opath_d(self, o, depth, seen):
+        if o["c"] in ("copy", "move"):
+            return self.place_path(o["p"], True, depth, seen)
+        if o["c"] == "const":
+            if "int" in o:
+                return "const:%d" % o["int"]
+            if "item" in o:
+                return "const:" + o["item"]
+            return "const"
+        return "?"
 
     def opath(self, o, deep=True):
         if o["c"] in ("copy", "move"):
@@ -1032,3 +1058,46 @@ def _value_origin(self, o, depth=0):
 
 Body.ipdom = property(_ipdom)
 Body.value_origin = _value_origin
+
+
+# ---------------------------------------------------------------------------
+# natural loops
+# ---------------------------------------------------------------------------
+def _loops(self):
+    """[(header, set(blocks))] natural loops (back edge b->h with h dominating b), merged per header"""
+    if getattr(self, "_loops_c", None) is not None:
+        return self._loops_c
+    live = self.live_blocks()
+    per = {}
+    for b in live:
+        for h in self.succ[b]:
+            if h in live and self.dominates(h, b):
+                body = {h, b}
+                st = [b]
+                while st:
+                    x = st.pop()
+                    if x == h:
+                        continue
+                    for p in self.pred[x]:
+                        if p in live and p not in body:
+                            body.add(p)
+                            st.append(p)
+                per.setdefault(h, set()).update(body)
+    self._loops_c = sorted(per.items(), key=lambda kv: len(kv[1]))
+    return self._loops_c
+
+
+def _loops_containing(self, b):
+    return [(h, s) for h, s in self.loops() if b in s]
+
+
+def _def_blocks(self, l):
+    out = set()
+    for d in self.defs.get(l, []):
+        out.add(d[1])
+    return out
+
+
+Body.loops = _loops
+Body.loops_containing = _loops_containing
+Body.def_blocks = _def_blocks
